@@ -456,6 +456,62 @@ def c16(ctx):
                           for c in cases[50:53] if not c.get("panic")]
 
 
+# ------------------------------------------------------------------------------------ C12 / C13
+
+def adapters(ctx, which):
+    props.check_props_file(ctx, f"Props/{which}.v")
+    cases = special_mode_cases(ctx, "c12", ["-n", "3600" if ctx.quick() else "120000", "-hostile", "0.2"])
+    cube = Counter()
+    ev = 0
+    distinct = set()
+    errkinds = Counter()
+    for c in cases:
+        failing = bool(c.get("render_err"))
+        if (which == "C12") != failing and not c.get("panic"):
+            continue
+        ev += 1
+        cube[(c["adapter"], c["method"], c["path"], c["named"], c["validate"])] += 1
+        if failing:
+            errkinds[c["render_err"].split(":")[0][:40]] += 1
+        rep = {"adapter": c["adapter"], "method": c["method"], "construction": c["path"], "named_args": c["named"],
+               "validation": c["validate"], "executor_fails": c["exec_fails"], "prog": c["prog"][:1500],
+               "render_err": c.get("render_err"), "executor_calls": c["ncalls"], "problems": c["problems"]}
+        if c.get("panic"):
+            ctx.violation("adapter call panicked: " + c["panic"][:200], rep)
+            continue
+        mine = [p for p in c["problems"] if p.startswith(which)]
+        if mine:
+            ctx.violation(mine[0][:300], rep)
+        else:
+            distinct.add((c["adapter"], c["method"], c["path"], c["named"], c["validate"], c["prog"]))
+    ctx.cov["evaluations"] = ev
+    ctx.cov["distinct_nontrivial"] = len(distinct)
+    ctx.cov["configuration_cube_cells_hit"] = len(cube)
+    ctx.cov["configuration_cube_cells_total"] = 2 * 3 * 2 * 2 * 2
+    ctx.cov["input_distribution"] = {"render_error_kinds": dict(errkinds),
+                                     "per_adapter_method": dict(Counter((k[0] + "." + k[1]) for k in cube.elements()))}
+    ctx.cov["samples"] = [{"adapter": c["adapter"], "method": c["method"], "prog": c["prog"][:300],
+                           "render_err": c.get("render_err")} for c in cases[:3]]
+    return cases
+
+
+@check("C12")
+def c12(ctx):
+    adapters(ctx, "C12")
+    ctx.cov["rule"] = ("structured + type-directed queries, 20% hostile names/types, binds with and without supplied map (missing "
+                       "named argument), conflicting clauses; every failing query x 2 adapters x 3 methods x 2 construction paths "
+                       "x named/none x validation on/off with a recording stub executor; distinct = (configuration, program)")
+
+
+@check("C13")
+def c13(ctx):
+    adapters(ctx, "C13")
+    ctx.cov["rule"] = ("every successfully rendering query (0..40+ arguments) x 2 adapters x 3 methods x 2 construction paths x "
+                       "named/none x validation on/off; the recorded call (context identity, sql, args by DeepEqual) is compared "
+                       "with a fresh ToSQL under the same options; executor results and errors must come back unchanged; "
+                       "distinct = (configuration, program)")
+
+
 # ------------------------------------------------------------------------------------ C19
 
 @check("C19")
